@@ -74,6 +74,8 @@ def scene(c):
         mats = {"lo": fdtdx.Material(permittivity=2.0), "hi": fdtdx.Material(permittivity=5.0, dispersion=disp)}
     else:
         mats = {"lo": fdtdx.Material(permittivity=2.0), "hi": fdtdx.Material(permittivity=5.0)}
+    if int(c.get("pseed", 0)) % 2:      # insertion order of the materials dict is arbitrary
+        mats = {"hi": mats["hi"], "lo": mats["lo"]}
     for i, d in enumerate(c["devices"]):
         shape = tuple(hi - lo for lo, hi in d["box"])
         dev = fdtdx.Device(name=f"dev{i}", materials=mats, param_transforms=[], partial_grid_shape=shape,
